@@ -109,7 +109,10 @@ class Modules(productmd.common.MetadataBase):
         version = uid_dict["version"]
         context = uid_dict["context"]
 
-        if modulemd_path.startswith("/"):
+        if modulemd_path is not None and not isinstance(modulemd_path, six.string_types):
+            raise TypeError("Argument 'modulemd_path' has to be a string: %r" % (modulemd_path, ))
+
+        if modulemd_path and modulemd_path.startswith("/"):
             raise ValueError("Relative path expected: %s" % modulemd_path)
 
         if not koji_tag:
